@@ -1,6 +1,6 @@
 import JSL.Inv.Feasible
 import JSL.Inv.TimeStep
-import JSL.Inv.AgvPass
+import JSL.Inv.RoutePass
 import JSL.Lib.StepSpec
 
 /-!
@@ -85,7 +85,9 @@ structure ResInv (orc : Oracle) (inst : Instance) (cfg : SMConfig) (s0 : State) 
   subsDur : ∀ σ ∈ res.subStates, DurInv inst σ
   agv : AgvInv res.state
   subsAgv : ∀ σ ∈ res.subStates, AgvInv σ
-  liveC : res.possible ≠ [] → OccursC orc inst cfg s0 res.state
+  full : AgvFull inst res.state
+  subsFull : ∀ σ ∈ res.subStates, AgvFull inst σ
+  liveF : res.possible ≠ [] → OccursF orc inst cfg s0 res.state
   live : res.possible ≠ [] → OccursA orc inst cfg s0 res.state ∧ (∀ tr ∈ res.possible, OfferShaped tr)
   /-- while there are offers, nothing is due -/
   quiet : res.possible ≠ [] → Quiet inst res.state
@@ -93,22 +95,25 @@ structure ResInv (orc : Oracle) (inst : Instance) (cfg : SMConfig) (s0 : State) 
   offersFrom : res.possible ≠ [] → ∃ poss, possibleTransitions inst cfg res.state = .ok poss ∧
     ∀ tr ∈ res.possible, tr ∈ poss
 
-theorem smStep_resInv {cfg : SMConfig} {s0 s : State} (hst : Start orc inst s0) (hC : OccursC orc inst cfg s0 s)
-    {a : Action} (ha : Admissible a) (hc : ClaimGS s (sortedByTransport a.transitions)) {fuel : Nat} {r r' : Rng}
+theorem smStep_resInv {cfg : SMConfig} {s0 s : State} (hst : Start orc inst s0) (hF : OccursF orc inst cfg s0 s)
+    {a : Action} (ha : Admissible a) (hadm : AdmOffer inst cfg s a) {fuel : Nat} {r r' : Rng}
     {res : SMResult} {mic : List State} (hstep : smStep orc inst cfg fuel s r a = .ok (res, r', mic)) :
-    ResInv orc inst cfg s0 res ∧ ∀ σ ∈ mic, StructInv inst σ ∧ SchedInv σ ∧ DurInv inst σ ∧ AgvInv σ := by
+    ResInv orc inst cfg s0 res ∧ ∀ σ ∈ mic, StructInv inst σ ∧ SchedInv σ ∧ DurInv inst σ ∧ AgvFull inst σ := by
+  have hC := hF.toC
+  have hc := hadm.claim
   have h := hC.toA
   obtain ⟨hI, hS⟩ := final_inv hst h ha hstep
   refine ⟨⟨hI, hS, fun σ hσ => (occursA_inv hst (OccursA.sub h ha hstep hσ)).2, final_dur hst h ha hstep,
       fun σ hσ => occursA_dur hst (OccursA.sub h ha hstep hσ), final_agv hst hC ha hc hstep,
-      fun σ hσ => occursC_agv hst (OccursC.sub hC ha hc hstep hσ), ?_, ?_, ?_, ?_⟩,
+      fun σ hσ => occursC_agv hst (OccursC.sub hC ha hc hstep hσ), final_full hst hF ha hadm hstep,
+      fun σ hσ => occursF_full hst (OccursF.sub hF ha hadm hstep hσ), ?_, ?_, ?_, ?_⟩,
     fun σ hσ => ⟨(occursA_inv hst (OccursA.micro h ha hstep hσ)).2.1, (occursA_inv hst (OccursA.micro h ha hstep hσ)).2.2,
-      occursA_dur hst (OccursA.micro h ha hstep hσ), occursC_agv hst (OccursC.micro hC ha hc hstep hσ)⟩⟩
+      occursA_dur hst (OccursA.micro h ha hstep hσ), occursF_full hst (OccursF.micro hF ha hadm hstep hσ)⟩⟩
   · intro hne
     rcases (smStep_spec hstep).2 with h1 | h1 | h1
     · exact absurd h1.2.2.2 hne
     · exact absurd h1.2.2.1 hne
-    · exact OccursC.result hC ha hc hstep h1.2.1
+    · exact OccursF.result hF ha hadm hstep h1.2.1
   · intro hne
     rcases (smStep_spec hstep).2 with h1 | h1 | h1
     · exact absurd h1.2.2.2 hne
@@ -131,20 +136,19 @@ theorem admissible_noOp : Admissible noOpAction := ⟨fun _ h => by simp [noOpAc
 
 theorem envReset_inv {ec : EnvCfg} {s0 : State} (hst : Start orc inst s0) {r : Rng} {e : EnvState} {mic : List State}
     (h : envReset orc inst ec s0 r = .ok (e, mic)) :
-    ResInv orc inst ec.sm s0 e.res ∧ ∀ σ ∈ mic, StructInv inst σ ∧ SchedInv σ ∧ DurInv inst σ ∧ AgvInv σ := by
+    ResInv orc inst ec.sm s0 e.res ∧ ∀ σ ∈ mic, StructInv inst σ ∧ SchedInv σ ∧ DurInv inst σ ∧ AgvFull inst σ := by
   unfold envReset mwReset at h
   obtain ⟨⟨res, mw, r', mic'⟩, h1, h⟩ := except_bind_eq_ok h
   obtain ⟨⟨res', r'', mic''⟩, h2, h1⟩ := except_bind_eq_ok h1
   simp at h1 h
   obtain ⟨rfl, rfl, rfl, rfl⟩ := h1
   obtain ⟨rfl, rfl⟩ := h
-  exact smStep_resInv hst OccursC.init admissible_noOp
-    (by simp only [noOpAction, sortedByTransport_nil]; exact ⟨fun _ h => (by cases h), List.Pairwise.nil⟩) h2
+  exact smStep_resInv hst OccursF.init admissible_noOp (Or.inl rfl) h2
 
 theorem envStep_inv {ec : EnvCfg} {st : RewardStatic} {s0 : State} (hst : Start orc inst s0) {e : EnvState}
     (hi : ResInv orc inst ec.sm s0 e.res) {a : AgentAct} {out : StepOut}
     (h : envStep orc inst ec st e a = .ok out) :
-    ResInv orc inst ec.sm s0 out.env.res ∧ ∀ σ ∈ out.micro, StructInv inst σ ∧ SchedInv σ ∧ DurInv inst σ ∧ AgvInv σ := by
+    ResInv orc inst ec.sm s0 out.env.res ∧ ∀ σ ∈ out.micro, StructInv inst σ ∧ SchedInv σ ∧ DurInv inst σ ∧ AgvFull inst σ := by
   unfold envStep at h
   split at h
   · simp at h
@@ -152,15 +156,15 @@ theorem envStep_inv {ec : EnvCfg} {st : RewardStatic} {s0 : State} (hst : Start 
     simp only at h
     obtain ⟨⟨rew, cnt⟩, _, h⟩ := except_bind_eq_ok h
     simp at h; subst h
-    have key : ResInv orc inst ec.sm s0 res' ∧ ∀ σ ∈ mic, StructInv inst σ ∧ SchedInv σ ∧ DurInv inst σ ∧ AgvInv σ := by
+    have key : ResInv orc inst ec.sm s0 res' ∧ ∀ σ ∈ mic, StructInv inst σ ∧ SchedInv σ ∧ DurInv inst σ ∧ AgvFull inst σ := by
       rcases mwStep_cases hm with ⟨o, o', rest, _, hp, e1, e2, e3, _, _, e6, _⟩ | ⟨act, hsub, hk, hs⟩
       · simp only at e1 e2 e3 e6
         have hl := hi.live (by rw [hp]; simp)
         refine ⟨⟨by rw [e1]; exact hi.struct, by rw [e1]; exact hi.sched, by rw [e2]; exact hi.subs,
           by rw [e1]; exact hi.dur, by rw [e2]; exact hi.subsDur, by rw [e1]; exact hi.agv, by rw [e2]; exact hi.subsAgv,
-          ?_, ?_, ?_, ?_⟩, ?_⟩
+          by rw [e1]; exact hi.full, by rw [e2]; exact hi.subsFull, ?_, ?_, ?_, ?_⟩, ?_⟩
         · intro _
-          rw [e1]; exact hi.liveC (by rw [hp]; simp)
+          rw [e1]; exact hi.liveF (by rw [hp]; simp)
         · intro _
           rw [e1, e3]
           exact ⟨hl.1, fun tr htr => hl.2 tr (by rw [hp]; exact List.mem_cons_of_mem _ htr)⟩
@@ -183,16 +187,15 @@ theorem envStep_inv {ec : EnvCfg} {st : RewardStatic} {s0 : State} (hst : Start 
             | nil => rw [hp] at this; simp at this
             | cons x xs => rw [hp] at this; simp at this; rw [this]; simp
           · rcases hk with ⟨_, h, _⟩ | ⟨_, h, _⟩ <;> rw [h] <;> simp
-        have hclaim : ClaimGS e.res.state (sortedByTransport act.transitions) := by
+        have hadm : AdmOffer inst ec.sm e.res.state act := by
           obtain ⟨poss, hposs, hsub⟩ := hi.offersFrom hne
-          apply claimGS_of_offer hposs
           rcases hk with ⟨_, _, ht, _⟩ | ⟨_, _, ht, _⟩
           · right
             cases hp : e.res.possible with
             | nil => exact absurd hp hne
-            | cons x xs => exact ⟨x, hsub x (by rw [hp]; simp), by rw [ht, hp]; rfl⟩
+            | cons x xs => exact ⟨poss, hposs, x, hsub x (by rw [hp]; simp), by rw [ht, hp]; rfl⟩
           · left; exact ht
-        exact smStep_resInv hst (hi.liveC hne) ha hclaim hs
+        exact smStep_resInv hst (hi.liveF hne) ha hadm hs
     by_cases hsuc : res'.success = true
     · simp only [hsuc, if_true]; exact key
     · simp only [hsuc]
@@ -231,7 +234,16 @@ theorem exposed_agv {ec : EnvCfg} {st : RewardStatic} {s0 σ : State} (hst : Sta
   cases h with
   | state he => exact (envReach_inv hst he).agv
   | sub he hσ => exact (envReach_inv hst he).subsAgv σ hσ
-  | resetMicro hr hσ => exact ((envReset_inv hst hr).2 σ hσ).2.2.2
-  | micro he hs hσ => exact ((envStep_inv hst (envReach_inv hst he) hs).2 σ hσ).2.2.2
+  | resetMicro hr hσ => exact ((envReset_inv hst hr).2 σ hσ).2.2.2.agv
+  | micro he hs hσ => exact ((envStep_inv hst (envReach_inv hst he) hs).2 σ hσ).2.2.2.agv
+
+/-- every exposed state satisfies the route invariant -/
+theorem exposed_route {ec : EnvCfg} {st : RewardStatic} {s0 σ : State} (hst : Start orc inst s0)
+    (h : Exposed orc inst ec st s0 σ) : RouteInv inst σ := by
+  cases h with
+  | state he => exact (envReach_inv hst he).full.route
+  | sub he hσ => exact ((envReach_inv hst he).subsFull σ hσ).route
+  | resetMicro hr hσ => exact ((envReset_inv hst hr).2 σ hσ).2.2.2.route
+  | micro he hs hσ => exact ((envStep_inv hst (envReach_inv hst he) hs).2 σ hσ).2.2.2.route
 
 end JSL
